@@ -180,8 +180,86 @@ func expandFacts(fs []Fact) []Fact {
 	out := fs
 	for _, f := range fs {
 		out = append(out, impliedByResult(f)...)
+		out = append(out, impliedByNilError(f)...)
 	}
 	return out
+}
+
+// impliedByNilError: the fact says that the error result of a direct call to a
+// module helper is nil (`h(...) == nil` true, `!= nil` false, also for the
+// error position of a multi-result call). Then whatever holds at every return
+// of the helper that can carry a nil error holds too (facts about the helper's
+// own values).
+var nilErrDepth int
+
+func impliedByNilError(f Fact) []Fact {
+	if nilErrDepth > 1 {
+		return nil // the helper's own returns are examined with local facts only
+	}
+	nilErrDepth++
+	defer func() { nilErrDepth-- }()
+	bo, ok := f.Cond.(*ssa.BinOp)
+	if !ok || (bo.Op != token.EQL && bo.Op != token.NEQ) {
+		return nil
+	}
+	var x ssa.Value
+	switch {
+	case isNilConst(bo.Y):
+		x = bo.X
+	case isNilConst(bo.X):
+		x = bo.Y
+	default:
+		return nil
+	}
+	isNil := (bo.Op == token.EQL) == f.Val
+	if !isNil || !isErrorType(x.Type()) {
+		return nil
+	}
+	x = unwrapLocal(x)
+	var call *ssa.Call
+	idx := 0
+	switch y := x.(type) {
+	case *ssa.Call:
+		call = y
+	case *ssa.Extract:
+		c, ok := y.Tuple.(*ssa.Call)
+		if !ok {
+			return nil
+		}
+		call, idx = c, y.Index
+	default:
+		return nil
+	}
+	callee := call.Common().StaticCallee()
+	if callee == nil || callee.Blocks == nil || !isModFunc(callee) {
+		return nil
+	}
+	var acc []Fact
+	n := 0
+	for _, b := range callee.Blocks {
+		ret, ok := lastInstr(b).(*ssa.Return)
+		if !ok {
+			continue
+		}
+		rr := retResults(ret)
+		if idx >= len(rr) {
+			return nil
+		}
+		if neverNil(rr[idx]) {
+			continue
+		}
+		if known, nilHere := errIsNilAt(ret, rr[idx]); known && !nilHere {
+			continue
+		}
+		here := append([]Fact{}, FactsAtBlock(b)...)
+		if n == 0 {
+			acc = here
+		} else {
+			acc = intersectFacts(acc, here)
+		}
+		n++
+	}
+	return acc
 }
 
 func impliedByResult(f Fact) []Fact {
